@@ -106,6 +106,18 @@ pub fn field_mutants(f: &XzFile) -> Vec<(String, XzFile)> {
         g.o_ftr_flags = Some(fl);
         out.push((format!("footer flags bit {} (footer CRC repaired, header flags untouched)", bit), g));
     }
+    // spare bytes after the LZMA2 end byte, covered by the declared compressed size and by the index (all consistent
+    // with each other, not with the data: the block's compressed data ends before its declared size)
+    for bi in 0..f.blocks.len() {
+        if !f.blocks[bi].with_csize {
+            continue;
+        }
+        for (extra, val) in [(1usize, 0u8), (4, 0), (4, 0x5A), (9, 0)] {
+            let mut g = f.clone();
+            g.blocks[bi].payload.extend(std::iter::repeat(val).take(extra));
+            out.push((format!("block {}: {} spare byte(s) {:#04x} after the LZMA2 end byte inside the declared compressed size (index consistent)", bi, extra, val), g));
+        }
+    }
     let crc_at = |name: &str| {
         let (a, _) = span(name);
         u32::from_le_bytes([bytes[a], bytes[a + 1], bytes[a + 2], bytes[a + 3]])
